@@ -28,7 +28,9 @@ type bufPipe struct {
 	closed chan struct{}
 }
 
-func newBufPipe() *bufPipe { return &bufPipe{wake: make(chan struct{}, 1), closed: make(chan struct{})} }
+func newBufPipe() *bufPipe {
+	return &bufPipe{wake: make(chan struct{}, 1), closed: make(chan struct{})}
+}
 
 func (p *bufPipe) Write(b []byte) (int, error) {
 	p.mu.Lock()
@@ -142,13 +144,13 @@ type InProc struct {
 }
 
 type pipeRW struct {
-	hdr     http.Header
-	pipe    *bufPipe
-	once    sync.Once
-	ready   chan struct{}
-	status  int
-	sent    http.Header
-	cancel  context.CancelFunc
+	hdr    http.Header
+	pipe   *bufPipe
+	once   sync.Once
+	ready  chan struct{}
+	status int
+	sent   http.Header
+	cancel context.CancelFunc
 }
 
 func (w *pipeRW) Header() http.Header { return w.hdr }
